@@ -42,6 +42,9 @@ structure RORes (mode : ROMode) (ts : List Lexem) where
   le : rest.length ≤ ts.length
   progress : opts.isSome = true → mode = .unknown → rest.length < ts.length
 
+/-- the root option `regexp`/`rx`, which reaches the parser as an operator token (D63 fix: any letter case) -/
+def isRegexpRootWord (s : Str) : Bool := lowerStr s == ofS "rx" || lowerStr s == ofS "regexp"
+
 def roFin (mode : ROMode) (o : RootOptions) (ts : List Lexem) : RORes mode ts :=
   if h : mode = .unknown then ⟨none, ts, Nat.le_refl _, fun a => by simp at a⟩
   else ⟨some o, ts, Nat.le_refl _, fun _ b => absurd b h⟩
@@ -49,7 +52,7 @@ def roFin (mode : ROMode) (o : RootOptions) (ts : List Lexem) : RORes mode ts :=
 def roGo (mode : ROMode) (o : RootOptions) : (ts : List Lexem) → RORes mode ts
   | [] => roFin mode o []
   | .op s :: r =>
-    if s == ofS "rx" then
+    if isRegexpRootWord s then
       match roGo .options { o with regexp := true } r with
       | ⟨x, r', h, _⟩ => ⟨x, r', by lenomega, fun _ _ => by lenomega⟩
     else roFin mode o _
